@@ -4,7 +4,7 @@ COMMON_NOTE = ("Trusted: Lean 4.33.0 kernel; axioms propext, Classical.choice, Q
 
 # suite: harness -suite name, Lean driver name (Main.lean argument, module CantoVerif.Driver.<Capitalised>), op counts, accept floor (%)
 SUITES = {
-    "csr": dict(quick_ops=8000, thorough_ops=40000, driver="csr", accept_floor=30),
+    "csr": dict(quick_ops=6000, thorough_ops=40000, driver="csr", accept_floor=30),
 }
 
 _CSR_ASSUME = [
@@ -67,7 +67,7 @@ TEXT = {
               "never_fails_for_valid_share (Turnstile deployed, fee collector holds the fee, consistent registry, magnitudes < 2^255 => no error, "
               "for every share incl. 0 and 1, every gasUsed/gasPrice incl. 0, every target and receipt) with never_fails_monitor tying the theorem to "
               "the executable monitor, and revenue_matches_turnstile over all histories. The model is tied to the code by the step-wise "
-              "correspondence on the REAL EVM with the REAL Turnstile (8000 ops quick, 8x40000 thorough: forged and genuine receipts, shares "
+              "correspondence on the REAL EVM with the REAL Turnstile (6000 ops quick, 8x40000 thorough: forged and genuine receipts, shares "
               "{0,1e-18,0.2,0.5,1-1e-18,1} and random, gasUsed/gasPrice in {0,1,small,2^63,2^64-1,random,>2^256}, funded and unfunded fee collector, "
               "fees next to 2^255 in worlds with a 1.5*2^255 supply) comparing outcome, whole bank ledger, both registry prefixes raw, "
               "Turnstile.balances by eth_call; seven C10 monitors are evaluated on every implementation transition. The pre-fix tree (cc98cce^) "
